@@ -234,14 +234,14 @@ def judge_ack(src_text, real):
     sets, _ = c05.id_spans(ids)
     for level, code, value, refdes, k, lost in real['reports']:
         if level == 'ele' and value and code in std and k < len(ids) and ids[k] not in c05.ENV and \
-                any(a < k <= b for a, b, _ in sets) and value not in got:
+                any(a < k <= b for a, b, _ in sets) and value not in got and any(ch in value for ch in '~*:'):
             flag('pred:ack-offending-value-not-echoed-whole', 'value %r reported with code %s is not an element of any %s' % (value, code, four))
             break
     # (b5) the real validator
     rv = c05.run_real(text, with_ack=False)
     if rv['exc'] is not None:
         if 'Map not found' in (rv.get('exc_text') or ''):
-            viol.append(('pred:ack-revalidation-map-not-found', 're-validating the %s: %s' % (kind, rv['exc_text'])))
+            flag('pred:ack-revalidation-map-not-found', 're-validating the %s: %s' % (kind, rv['exc_text']))
         else:
             flag('pred:ack-revalidation-raises:%s:%s:%s' % rv['exc'], 're-validating the %s: %s' % (kind, rv.get('exc_text')))
     elif rv['verdict'] is not True:
@@ -261,6 +261,8 @@ def judge_ack(src_text, real):
                 if sid == 'GS' and rp[0] in (2, 3, 6, 7):
                     echoed = True
                 if sid == 'TA1' and rp[0] in (1, 2, 3):
+                    echoed = True
+                if sid == 'GE' and rp[0] == 2:          # the 997 reuses the source GS06 as its own group control number
                     echoed = True
             if not echoed:
                 other.append((sid, level, code, str(refdes)))
@@ -335,7 +337,8 @@ def run(tier):
     res.notes['disagreements_checked'] = ndis
     res.assumptions = ['an acknowledgement is written (x12n_document returns and the last group is not FA)',
                        '"echoed values fit the element definitions": complaints of the validator about AK1/AK2/AK3/AK4(04)/IK3/IK4(04), '
-                       'ISA05-08,11,12,15, GS02,03,06,07 and TA101-03 of the acknowledgement are allowed',
+                       'ISA05-08,11,12,15, GS02,03,06,07, GE02 and TA101-03 of the acknowledgement are allowed',
+                       'TA105 of a 999 (`list(set(codes))[0]`) and the order of the AK3/IK3 lines of one segment depend on hash order: masked / compared as multisets',
                        'a case in which a copied value contains ~ * or : is reported under the single key pred:ack-echo-contains-delimiter']
     return res.finish(trusted=common.TRUSTED_COMMON + [
         'modelled: error_997_visitor, error_999_visitor + X12Writer, Segment/Composite operations (Model/Ack.lean)',
